@@ -1,6 +1,7 @@
 package zzverif
 
 import (
+	"verifsim/simclock"
 	"encoding/json"
 	"fmt"
 	"sort"
@@ -75,7 +76,12 @@ func genQCfg(rc *RunCtx) QCfg {
 		c.TLS = r.Chance(1, 2)
 	case "C05":
 		c.Restarts = r.Range(1, 3)
-	case "C08", "C12":
+	case "C12":
+		// room for multi-publishes that exhaust the 4096 ids of one generator tick
+		c.MaxBodySize = 1 << 20
+		c.MaxRdy = int64(r.Pick(100, 2500))
+		c.ClockSteps = true
+	case "C08":
 	}
 	return c
 }
@@ -157,6 +163,11 @@ func genQOps(rc *RunCtx, c QCfg) []Op {
 			switch k {
 			case 1, 4, 5:
 				o.D = int64(r.Range(1, 6))
+				if rc.Prop == "C12" && r.Chance(1, 5) {
+					// more ids than one generator tick holds, tiny bodies
+					o.D = int64(r.Pick(1500, 2100, 4096, 4097, 5000))
+					o.A &= 0xff
+				}
 			case 2, 6:
 				o.D = []int64{0, 1, 100, c.ScanIntervalMs, 1500, c.MaxReqTimeoutMs - 1, c.MaxReqTimeoutMs, c.MaxReqTimeoutMs + 1}[r.Intn(8)]
 				if rc.Prop == "C04" && r.Chance(1, 3) {
@@ -209,6 +220,10 @@ func genQOps(rc *RunCtx, c QCfg) []Op {
 			}
 			restarts++
 			o = Op{Kind: "restart", A: int64(r.Intn(4)), B: int64(r.Intn(8)), C: int64(r.Range(1, 4))}
+		}
+		if rc.Prop == "C12" && r.Chance(1, 12) {
+			// step the id generator's clock (the daemon's other timers are unaffected)
+			add(Op{Kind: "clock", A: []int64{-3, -50, -1500, -10000, 0, 0, 1000}[r.Intn(7)]})
 		}
 		if o.Kind != "adv" && o.Kind != "stats" && o.Kind != "restart" && o.Kind != "sub" && o.Kind != "cls" && r.Chance(w.burst, 100) {
 			o.Burst = true
@@ -324,6 +339,8 @@ func queueWorld(rc *RunCtx) {
 		return
 	}
 	rc.Defer(func() { w.stopNSQD() })
+	simclock.SetOffset(0)
+	rc.Defer(func() { simclock.SetOffset(0) })
 
 	for i, op := range ops {
 		rc.step = i + 1
@@ -460,6 +477,13 @@ func (w *qWorld) exec(op Op) {
 		}
 	case "close":
 		w.opClose(op)
+	case "clock":
+		simclock.SetOffset(ms(op.A))
+		w.rc.Fault("id_clock_step")
+		if op.A < 0 {
+			w.rc.Fault("id_clock_step_back")
+		}
+		return
 	case "adv":
 		w.settleIfBurst()
 		d := ms(op.A)
